@@ -88,6 +88,19 @@ static void sweep_mt_products(vh_ctx *c, size_t rows, size_t t)
     char key[128];
     double worst = 0, worst_or = 0;
     int zero = 0, dep = 0, orc = 0;
+    /* missing-coded cells are skipped term by term by the kernels (documented for PCA): the threaded result must still be the
+       sequential one.  One or two cells of the matrix, sometimes one entry of the vector; inner >= 2 keeps every output positive. */
+    if (inner >= 2 && rows >= 1 && vh_coin(c, 0.3)) {
+      size_t nm = (size_t)vh_int(c, 1, 2), q;
+      for (q = 0; q < nm; q++) { size_t a = (size_t)vh_int(c, 0, (long)m->row - 1), b = (size_t)vh_int(c, 0, (long)m->col - 1); size_t line = which == 0 ? a : b, cnt = 0, z;
+        for (z = 0; z < inner; z++) if ((which == 0 ? m->data[line][z] : m->data[z][line]) == MISSING) cnt++;
+        if (cnt + 2 <= inner) m->data[a][b] = MISSING; }
+      if (inner >= 3 && vh_coin(c, 0.3)) v->data[(size_t)vh_int(c, 0, (long)inner - 1)] = MISSING;
+      /* never leave an output line without a term */
+      for (i = 0; i < rows; i++) { size_t cnt = 0; for (j = 0; j < inner; j++) if ((which == 0 ? m->data[i][j] : m->data[j][i]) != MISSING && v->data[j] != MISSING) cnt++; if (!cnt) { for (j = 0; j < inner; j++) { if (which == 0) m->data[i][j] = 1.0; else m->data[j][i] = 1.0; } } }
+      { int ok = 0; for (j = 0; j < inner; j++) if (v->data[j] != MISSING) ok = 1; if (!ok) v->data[0] = 1.0; }
+      vh_obs("sweep_mt_products_with_missing_cells", 1);
+    }
     NewDVector(&p1, rows); NewDVector(&pt, rows); NewDVector(&pt2, rows);
     libsci_verif_nprocs = 1;
     if (which == 0) MT_MatrixDVectorDotProduct(m, v, p1); else MT_DVectorMatrixDotProduct(m, v, p1);
@@ -98,7 +111,7 @@ static void sweep_mt_products(vh_ctx *c, size_t rows, size_t t)
     libsci_verif_nprocs = 1;
     for (i = 0; i < rows; i++) {
       ld s = 0; double e;
-      for (j = 0; j < inner; j++) s += which == 0 ? (ld)m->data[i][j] * v->data[j] : (ld)v->data[j] * m->data[j][i];
+      for (j = 0; j < inner; j++) { double mv = which == 0 ? m->data[i][j] : m->data[j][i]; if (mv == MISSING || v->data[j] == MISSING) continue; s += (ld)mv * v->data[j]; }
       if (pt->data[i] == 0.0) zero++;
       e = relerr(pt->data[i], (ld)p1->data[i]); if (e > worst) worst = e; if (!(e <= RELTOL)) dep++;
       e = relerr(pt->data[i], s); if (e > worst_or) worst_or = e; if (!(e <= RELTOL)) orc++;
